@@ -34,7 +34,7 @@ def readDocBlock (bytes : Bytes) : Rd :=
 
 /-- what the index worker receives for one block -/
 structure Entry where
-  meta : Bytes      -- the meta block (after `SetExt2`)
+  blk : Bytes   -- the meta block (after `SetExt2`)
   pos : Nat         -- `indexTask.Pos`, appended to `Active.DocBlocks`
 deriving DecidableEq, Repr
 
@@ -60,12 +60,12 @@ def replayGo : Nat → Bytes → Nat → Nat → Replayed
         { r with entries := ⟨setExt2 blk dp, dp⟩ :: r.entries }
 
 /-- every accepted block has at least 33 bytes, so `length + 1` iterations always reach the end -/
-def replay (meta : Bytes) : Replayed := replayGo (meta.length + 1) meta 0 0
+def replay (mfile : Bytes) : Replayed := replayGo (mfile.length + 1) mfile 0 0
 
 /-- store state of a running process: the two files, the writer offsets, the blocks given to the indexer -/
 structure St where
   docs : Bytes
-  meta : Bytes
+  mfile : Bytes
   offD : Nat
   offM : Nat
   idx : List Entry
@@ -82,7 +82,7 @@ def append (st : St) (d m : Bytes) : St :=
   let m' := stampMeta m d.length st.offD
   { st with
     docs := writeAt st.docs st.offD d
-    meta := writeAt st.meta st.offM m'
+    mfile := writeAt st.mfile st.offM m'
     offD := st.offD + d.length
     offM := st.offM + m'.length
     idx := st.idx ++ [⟨m', st.offD⟩] }
@@ -95,18 +95,18 @@ deriving DecidableEq, Repr
 
 /-- the two files after the crash -/
 def crashDisk (st : St) (d m : Bytes) : CrashPt → Bytes × Bytes
-  | .docsTorn k => (writeAt st.docs st.offD (d.take k), st.meta)
-  | .metaTorn k => (writeAt st.docs st.offD d, writeAt st.meta st.offM ((stampMeta m d.length st.offD).take k))
+  | .docsTorn k => (writeAt st.docs st.offD (d.take k), st.mfile)
+  | .metaTorn k => (writeAt st.docs st.offD d, writeAt st.mfile st.offM ((stampMeta m d.length st.offD).take k))
 
 /-- start-up of an active fraction: `NewActive` + `Replay`; `fix = true` is the repaired start-up -/
-def restart (fix : Bool) (docs meta : Bytes) : St :=
-  let r := replay meta
-  if r.panicked then ⟨docs, meta, docs.length, meta.length, [], true⟩
+def restart (fix : Bool) (docs mfile : Bytes) : St :=
+  let r := replay mfile
+  if r.panicked then ⟨docs, mfile, docs.length, mfile.length, [], true⟩
   else if fix then
     let docs' := docs.take r.docsPos
-    let meta' := meta.take r.metaPos
-    ⟨docs', meta', docs'.length, meta'.length, r.entries, false⟩
-  else ⟨docs, meta, docs.length, meta.length, r.entries, false⟩
+    let mfile' := mfile.take r.metaPos
+    ⟨docs', mfile', docs'.length, mfile'.length, r.entries, false⟩
+  else ⟨docs, mfile, docs.length, mfile.length, r.entries, false⟩
 
 inductive Ev where
   | bulk (d m : Blk)                       -- acknowledged bulk
@@ -119,7 +119,7 @@ def step (fix : Bool) (st : St) : Ev → St
   | .tornBulk d m pt =>
     if st.panicked then st
     else restart fix (crashDisk st (enc d) (enc m) pt).1 (crashDisk st (enc d) (enc m) pt).2
-  | .restart => restart fix st.docs st.meta
+  | .restart => restart fix st.docs st.mfile
 
 def run (fix : Bool) (st : St) (h : List Ev) : St := h.foldl (step fix) st
 
@@ -133,7 +133,7 @@ def readBlockAt (f : Bytes) (off : Nat) : Option Bytes :=
 docs file holds exactly its docs block -/
 def present (st : St) (d m : Blk) : Bool :=
   st.idx.any fun e =>
-    decide (stampMeta e.meta 0 0 = stampMeta (enc m) 0 0) && decide (readBlockAt st.docs e.pos = some (enc d))
+    decide (stampMeta e.blk 0 0 = stampMeta (enc m) 0 0) && decide (readBlockAt st.docs e.pos = some (enc d))
 
 /-- bulks acknowledged in a history -/
 def ackedOf : List Ev → List (Blk × Blk)
